@@ -2,6 +2,15 @@
 
 package validation
 
+import (
+	"fmt"
+	"reflect"
+	"strings"
+
+	pa "github.com/benoitkugler/webrender/css/parser"
+	pr "github.com/benoitkugler/webrender/css/properties"
+)
+
 // Contracts for the deductive verifier in /verif (build tag verif: not compiled into
 // normal builds). Oracle: CSS Values 3 §5 (units are ASCII case-insensitive) and the
 // property statements C08 / C07.
@@ -99,3 +108,172 @@ package validation
 //@   loop 2 invariant old(n) == 3 ==> tokens[0] == old(tokens[0]) && tokens[1] == old(tokens[1]) && tokens[2] == old(tokens[2]) && tokens[3] == old(tokens[1])
 //@   loop 2 invariant old(n) == 4 ==> tokens[0] == old(tokens[0]) && tokens[1] == old(tokens[1]) && tokens[2] == old(tokens[2]) && tokens[3] == old(tokens[3])
 //@   loop 2 invariant old(n) >= 1 && old(n) <= 4
+
+// ---------------------------------------------------------------------------
+// bounded stand-in (C08): "a shorthand yields exactly the longhand values CSS assigns (omitted parts
+// reset to initial)", however it is spelled. The expanders are large closures over token
+// stacks, outside the reach of the contracts; vShorthandsVsLonghands compares, through the real
+// PreprocessDeclarations, every shorthand below against the equivalent longhand declarations:
+//   - border, border-top, outline, column-rule, list-style, text-decoration, flex-flow, columns:
+//     every non-empty subset of their components in every order (omitted components must come
+//     out as `initial`), in lower case, in upper case and with comments between the components;
+//   - background: every 1-, 2- and 3-layer shorthand over two choices per component (image,
+//     position, repeat, attachment, origin box, clip box) for the first two layers.
+func vDeclared(css string) map[pr.KnownProp]pr.DeclaredValue {
+	out := map[pr.KnownProp]pr.DeclaredValue{}
+	for _, v := range PreprocessDeclarations("http://x/", pa.ParseDeclarationListString(css, false, false)) {
+		out[v.Name.KnownProp] = v.Value
+	}
+	return out
+}
+
+func vShorthandsVsLonghands() (int, []string) {
+	n, fails := 0, []string{}
+	fail := func(f string, a ...interface{}) {
+		if len(fails) < 6 {
+			fails = append(fails, fmt.Sprintf(f, a...))
+		}
+	}
+	type comp struct{ longhand, value string }
+	shorthands := map[string][]comp{
+		"border":          {{"border-top-width", "3px"}, {"border-top-style", "dashed"}, {"border-top-color", "red"}},
+		"border-top":      {{"border-top-width", "thick"}, {"border-top-style", "dotted"}, {"border-top-color", "#00f"}},
+		"outline":         {{"outline-width", "2px"}, {"outline-style", "solid"}, {"outline-color", "green"}},
+		"column-rule":     {{"column-rule-width", "4px"}, {"column-rule-style", "double"}, {"column-rule-color", "blue"}},
+		"list-style":      {{"list-style-type", "square"}, {"list-style-position", "inside"}, {"list-style-image", "url(a.png)"}},
+		"text-decoration": {{"text-decoration-line", "underline"}, {"text-decoration-style", "wavy"}, {"text-decoration-color", "red"}},
+		"flex-flow":       {{"flex-direction", "column"}, {"flex-wrap", "wrap"}},
+		"columns":         {{"column-width", "10em"}, {"column-count", "3"}},
+	}
+	var perms func(a []int, k int, f func([]int))
+	perms = func(a []int, k int, f func([]int)) {
+		if k == len(a) {
+			f(a)
+			return
+		}
+		for i := k; i < len(a); i++ {
+			a[k], a[i] = a[i], a[k]
+			perms(a, k+1, f)
+			a[k], a[i] = a[i], a[k]
+		}
+	}
+	for name, comps := range shorthands {
+		for mask := 1; mask < 1<<len(comps); mask++ {
+			var idx []int
+			for i := range comps {
+				if mask&(1<<i) != 0 {
+					idx = append(idx, i)
+				}
+			}
+			perms(idx, 0, func(order []int) {
+				var vals, longs []string
+				for _, i := range order {
+					vals = append(vals, comps[i].value)
+					longs = append(longs, comps[i].longhand+": "+comps[i].value)
+				}
+				wantLower := vDeclared(strings.Join(longs, "; "))
+				wantUpper := vDeclared(strings.Replace(strings.ToUpper(strings.Join(longs, "; ")), "URL(A.PNG)", "URL(a.png)", 1))
+				// spelling: an upper-case longhand means the same as the lower-case one (counter style
+				// names are <custom-ident>s, compared case-sensitively: list-style-type is left out)
+				for k, w := range wantLower {
+					if k.String() != "list-style-type" && !reflect.DeepEqual(wantUpper[k], w) {
+						fail("%s: upper-case spelling gives %v, lower-case %v", k, wantUpper[k], w)
+					}
+				}
+				for variant, text := range []string{
+					name + ": " + strings.Join(vals, " "),
+					strings.ToUpper(name) + ": " + strings.ToUpper(strings.Join(vals, " ")),
+					name + ":/**/" + strings.Join(vals, " /* c */  ") + " /**/",
+				} {
+					if variant == 1 && strings.Contains(text, "URL(") {
+						text = strings.Replace(text, "URL(A.PNG)", "URL(a.png)", 1) // the url itself is case-sensitive
+					}
+					n++
+					got := vDeclared(text)
+					for i, c := range comps {
+						lh := wantLower
+						if variant == 1 {
+							lh = wantUpper
+						}
+						if mask&(1<<i) == 0 {
+							// omitted component: reset to initial
+							if name == "border" {
+								continue // `border` also resets the other sides and border-image: compared below on the given components only
+							}
+							for k, v := range got {
+								if k.String() == c.longhand && v != pr.Initial && !reflect.DeepEqual(v, pr.InitialValues[k]) {
+									fail("%q: omitted %s is %v, not initial", text, c.longhand, v)
+								}
+							}
+							continue
+						}
+						for k, w := range lh {
+							if k.String() != c.longhand {
+								continue
+							}
+							if g, ok := got[k]; !ok || !reflect.DeepEqual(g, w) {
+								fail("%q: %s is %v, the longhand gives %v", text, c.longhand, g, w)
+							}
+						}
+					}
+				}
+			})
+		}
+	}
+	// background layers
+	type layer struct{ image, position, repeat, attachment, origin, clip string }
+	choices := [2]layer{
+		{"url(a.png)", "left top", "repeat-x", "scroll", "padding-box", "content-box"},
+		{"none", "10px 20px", "no-repeat", "fixed", "border-box", "padding-box"},
+	}
+	var layers [][]layer
+	for c0 := 0; c0 < 64; c0++ {
+		pick := func(c int) layer {
+			l := choices[0]
+			alt := choices[1]
+			if c&1 != 0 {
+				l.image = alt.image
+			}
+			if c&2 != 0 {
+				l.position = alt.position
+			}
+			if c&4 != 0 {
+				l.repeat = alt.repeat
+			}
+			if c&8 != 0 {
+				l.attachment = alt.attachment
+			}
+			if c&16 != 0 {
+				l.origin = alt.origin
+			}
+			if c&32 != 0 {
+				l.clip = alt.clip
+			}
+			return l
+		}
+		layers = append(layers, []layer{pick(c0)})
+		layers = append(layers, []layer{pick(c0), pick(63 - c0)})
+		layers = append(layers, []layer{pick(c0), pick((c0 * 7) % 64), pick(63 - c0)})
+	}
+	for _, ls := range layers {
+		var short, im, po, re, at, or, cl []string
+		for _, l := range ls {
+			short = append(short, strings.Join([]string{l.image, l.position, l.repeat, l.attachment, l.origin, l.clip}, " "))
+			im, po, re, at, or, cl = append(im, l.image), append(po, l.position), append(re, l.repeat), append(at, l.attachment), append(or, l.origin), append(cl, l.clip)
+		}
+		n++
+		text := "background: " + strings.Join(short, ", ")
+		got := vDeclared(text)
+		want := vDeclared("background-image: " + strings.Join(im, ", ") + "; background-position: " + strings.Join(po, ", ") + "; background-repeat: " + strings.Join(re, ", ") +
+			"; background-attachment: " + strings.Join(at, ", ") + "; background-origin: " + strings.Join(or, ", ") + "; background-clip: " + strings.Join(cl, ", "))
+		for k, w := range want {
+			if g, ok := got[k]; !ok || !reflect.DeepEqual(g, w) {
+				fail("%q: %s is %v, the longhand gives %v", text, k, g, w)
+			}
+		}
+	}
+	return n, fails
+}
+
+//@ bounded vShorthandsVsLonghands 8 shorthands x every subset and order of their components x 3 spellings, and 192 one- to three-layer background shorthands, against the equivalent longhand declarations
+//@   props C08
